@@ -37,6 +37,8 @@ def main():
         democmd=meta.get('demo_cmd','')
         democmd=re.sub(r'/tmp/mut/%s\b'%pid, wt, democmd)
         democmd=re.sub(r'^cd \S+ && ','',democmd.strip())
+        m2=re.search(r'\bgo (test|run)\b', democmd)
+        if m2: democmd=democmd[m2.start():]
         res['demo_cmd']=democmd
         if dest:
             os.makedirs(os.path.dirname(wt+'/'+dest),exist_ok=True)
@@ -54,6 +56,8 @@ def main():
             res['error']=out[-800:]; return res
         rc1,out1=sh(democmd,cwd=wt) if democmd else (None,'')
         res['demo_with_change']={'rc':rc1,'tail':out1[-400:]}
+        if '--demo-only' in sys.argv:
+            return res
         # existing tests of touched packages (demo file removed)
         if dest: os.remove(wt+'/'+dest)
         files=re.findall(r'^\+\+\+ b/(\S+)', open(src+'/patch.diff').read(), re.M)
@@ -81,4 +85,8 @@ if '--keep' in sys.argv:
     os.makedirs(d,exist_ok=True)
     src='/tmp/mut-out/%s/%s'%(pid,n)
     for f in os.listdir(src): shutil.copy(src+'/'+f,d+'/'+f)
+    if '--demo-only' in sys.argv and os.path.exists(d+'/evaluation.json'):
+        old=json.load(open(d+'/evaluation.json'))
+        for k in ('demo_cmd','demo_dest','demo_without_change','demo_with_change'): old[k]=r.get(k)
+        r=old
     json.dump(r,open(d+'/evaluation.json','w'),indent=1)
